@@ -1,6 +1,8 @@
 """C14 — contingency extremes and causes.
 Correspondence: run_contingency driven with a stub evaluation function writing generated result
-arrays (NaN, ties, raising cases, out-of-service elements, shuffled indices) vs C14.Model.run_table.
+arrays (NaN, ties, raising cases, out-of-service elements, shuffled indices) vs C14.Model.run_table; the same runs
+through the table-level model C14.Write.run_write_out (evaluation trace, returned dict with its key order, res_* tables
+after write_to_net, with stub res tables that carry extra and name-colliding columns).
 Oracle: real run_contingency on generated meshed nets vs a brute-force loop of fresh power flows."""
 import copy, math
 import numpy as np, pandas as pd
@@ -10,10 +12,11 @@ from vf import coqrun as cq, nets
 
 RULE = ("stub-driven case sequences (1-10 outages over line/trafo/trafo3w tables with shuffled indices, NaN/tie/"
         "raising/out-of-service mix) compared exactly with the Coq fold; real meshed nets (5-9 buses) compared with a "
-        "brute-force N-1 loop; non-trivial = at least 2 successful cases and at least one masked (NaN or out-of-service) observation")
+        "brute-force N-1 loop and their res_* tables before/after with C14.Write.write_table; non-trivial = at least 2 successful cases and at least one masked (NaN or out-of-service) observation")
 ASSUMPTIONS = ["runpp is an oracle for the real-net part; the stub part needs no solver",
                "np.fmax/np.fmin/> follow IEEE NaN semantics as modelled in C14.Model (gt, fmax, fmin)"]
-TRUSTED = ["stub injection through the public contingency_evaluation_function parameter"]
+TRUSTED = ["stub injection through the public contingency_evaluation_function parameter",
+           "table level: the res_ tables the evaluation leaves have the element table's index (true for runpp and the stub)"]
 ET = {"line": 0, "trafo": 1, "trafo3w": 2}
 ETN = {v: k for k, v in ET.items()}
 
@@ -43,6 +46,53 @@ def _gen_vals(rng, net, tab):
             v = float("nan") if r < 0.12 else rng.choice([0.0, 8.0, 40.0, 40.0, 64.0, 100.0, 104.0, 128.0, rng.randint(0, 160) * 1.0])
         vals.append(v)
     return vals
+
+
+_XCOLS = {"bus": ["va_degree", "p_mw", "max_vm_pu", "min_vm_pu"],
+          "branch": ["p_from_mw", "i_ka", "max_loading_percent", "min_loading_percent", "cause_index", "cause_element",
+                     "causes_overloading"]}
+
+
+def _mk_res_table(rng, net, t, vals):
+    """a res_ table as the evaluation leaves it: the result variable plus extra columns in random order; some extras
+    carry the name of a key of the contingency result dict (write_to_net must leave them alone)"""
+    var = "vm_pu" if t == "bus" else "loading_percent"
+    extras = [c for c in _XCOLS["bus" if t == "bus" else "branch"] if rng.random() < 0.22]
+    cols = [var] + extras
+    rng.shuffle(cols)
+    data = {c: (list(vals) if c == var else [rng.randint(-8, 8) / 4 for _ in vals]) for c in cols}
+    return pd.DataFrame(data, index=net[t].index, columns=cols), [(c, list(data[c])) for c in cols]
+
+
+def _cell(key, x):
+    """python value of a dict entry / table cell in the shape of the model output"""
+    if x is None or (isinstance(x, float) and math.isnan(x)):
+        return None
+    if isinstance(x, str):
+        return ET.get(x, x)
+    if isinstance(x, (bool, np.bool_)):
+        return bool(x)
+    if key in ("index", "cause_index") and float(x) == int(x):
+        return int(x)
+    return Fraction(float(x))
+
+
+def _ocell(key, x):
+    """the same cell as a Gallina term of type out"""
+    v = _cell(key, x)
+    if v is None:
+        return "ONone"
+    if isinstance(v, bool):
+        return "OB %s" % cq.b(v)
+    if isinstance(v, int):
+        return "OZ %s" % cq.z(v)
+    if isinstance(v, str):
+        return "OS %s" % cq.s(v)
+    return "oq %s" % cq.q(v)
+
+
+def _otable(cols):
+    return cq.lst(["(%s, %s)" % (cq.s(c), cq.lst([_ocell(c, x) for x in vals])) for c, vals in cols])
 
 
 def _stub_case(ctx, rng):
@@ -80,9 +130,9 @@ def _stub_case(ctx, rng):
         log.append(rec)
         if rec["raises"]:
             raise RuntimeError("stub raise")
-        for t in tabs:
-            n["res_" + t] = pd.DataFrame({"loading_percent": rec["vals"][t]}, index=n[t].index)
-        n["res_bus"] = pd.DataFrame({"vm_pu": rec["vals"]["bus"]}, index=n.bus.index)
+        rec["tables"] = {}
+        for t in tabs + ["bus"]:
+            n["res_" + t], rec["tables"][t] = _mk_res_table(rng, n, t, rec["vals"][t])
 
     from pandapower.contingency import run_contingency
     callkw = dict(kw)
@@ -120,7 +170,7 @@ def _stub_case(ctx, rng):
         desc = {"cases": {t: [int(i) for i in v["index"]] for t, v in cases.items()},
                 "tables": {t: [int(i) for i in net[t].index] for t in tabs}, "call": {k: repr(v) for k, v in callkw.items()},
                 "log": [{"raises": r["raises"], "ins": r["ins"], "kw": {k: repr(v) for k, v in r["kw"].items()}} for r in log]}
-        return None, None, desc, restored, True, True, proto_bad
+        return None, None, desc, restored, True, True, proto_bad, None
     # ---- model input
     succ = [(lab, rec) for lab, rec in zip(labels_seq, log[:-1]) if not rec["raises"]]
     limcol = {t: ("max_loading_percent_nminus1" if "max_loading_percent_nminus1" in net[t].columns else "max_loading_percent") for t in tabs}
@@ -190,7 +240,59 @@ def _stub_case(ctx, rng):
     desc = {"cases": {t: [int(i) for i in v["index"]] for t, v in cases.items()},
             "tables": {t: [int(i) for i in net[t].index] for t in tabs}, "call": {k: repr(v) for k, v in callkw.items()},
             "log": [{"raises": r["raises"], "ins": r["ins"], "vals": {t: [None if v != v else v for v in vs] for t, vs in r["vals"].items()}} for r in log]}
-    return term, impl, desc, restored, n0_ok, (len(succ) >= 2 and masked > 0), spec_bad
+    # ---- table-level model (C14.Write): the whole run with the logged evaluation results as the oracle stream
+    rowtabs = tabs + ["bus"]                      # row vector of the model: line ++ trafo ++ trafo3w ++ bus
+    dict_tabs = ["bus"] + tabs                    # order of contingency_results (:83)
+    off, k0 = {}, 0
+    for t in rowtabs:
+        off[t] = k0
+        k0 += len(net[t])
+    evs = cq.lst(["None" if r["raises"] else "(Some %s)" % cq.lst([cq.oq(v) for t in rowtabs for v in r["vals"][t]]) for r in log])
+    limv = cq.lst([cq.oq(x) for t in tabs for x in lims[t]] + ["None"] * len(net.bus))
+    outs = cq.lst(["((%s, %s), %s)" % (cq.nat(ET[t]), cq.z(i), cq.nat(off[t] + list(net[t].index).index(i)))
+                   for t, v in cases.items() for i in v["index"]])
+    tabspecs = cq.lst(["{| t_bus := %s; t_type := %s; t_var := %s; t_index := %s; t_off := %s |}" % (
+        cq.b(t == "bus"), cq.nat(ET.get(t, 9)), cq.s("vm_pu" if t == "bus" else "loading_percent"),
+        cq.lst([cq.z(i) for i in net[t].index]), cq.nat(off[t])) for t in dict_tabs])
+    ins0 = cq.lst([cq.b(x) for t in rowtabs for x in ins_before[t]])
+    pre = {t: log[-1]["tables"][t] for t in dict_tabs}     # the res_ tables as the N-0 evaluation left them
+    wterm = "run_write_out %s %s %s %s %s %s" % (evs, limv, outs, tabspecs, ins0, cq.lst([_otable(pre[t]) for t in dict_tabs]))
+    post = {t: [(c, list(net["res_" + t][c].values)) for c in net["res_" + t].columns] for t in dict_tabs}
+    wimpl = [[bool(x) for t in rowtabs for x in ins_after[t]],
+             [[bool(x) for t in rowtabs for x in r["ins"][t]] for r in log],
+             [[[k, [_cell(k, x) for x in list(v)]] for k, v in res[t].items()] for t in dict_tabs],
+             [[[c, [_cell(c, x) for x in vals]] for c, vals in post[t]] for t in dict_tabs]]
+    ctx.count("pre_existing_columns_named_like_a_result_key_%d" % min(3, sum(
+        1 for t in dict_tabs for c, _ in pre[t] if c in res[t] and c not in ("loading_percent", "vm_pu"))))
+    if list(res.keys()) != dict_tabs:
+        spec_bad.append("result dict has tables %s, expected %s" % (list(res.keys()), dict_tabs))
+    # the write_to_net spec itself on the real tables (independent of the model)
+    for t in dict_tabs:
+        spec_bad += _write_spec(t, pre[t], post[t], res[t])
+    return term, impl, desc, restored, n0_ok, (len(succ) >= 2 and masked > 0), spec_bad, (wterm, wimpl)
+
+
+def _veq(key, a, b):
+    return _js([_cell(key, x) for x in a]) == _js([_cell(key, x) for x in b])
+
+
+def _write_spec(t, pre, post, rdict, veq=_veq):
+    """write_to_net: exactly the keys of the result dict other than "index" and the names already present become new
+    columns (after the old ones), with the dict's values; every column that was there before is untouched"""
+    bad = []
+    precols = [c for c, _ in pre]
+    want = precols + [k for k in rdict.keys() if k != "index" and k not in precols]
+    if [c for c, _ in post] != want:
+        bad.append("res_%s has columns %s after write_to_net, expected %s" % (t, [c for c, _ in post], want))
+        return bad
+    postd = dict(post)
+    for c, vals in pre:
+        if not veq(c, vals, postd[c]):
+            bad.append("res_%s.%s existed before write_to_net and was changed" % (t, c))
+    for k in want[len(precols):]:
+        if not veq(k, list(rdict[k]), postd[k]):
+            bad.append("res_%s.%s differs from the returned dict entry" % (t, k))
+    return bad
 
 
 def _same(a, b):
@@ -289,9 +391,37 @@ def _real_oracle(ctx, rng):
     for t in ins0:
         if not (ins0[t] == net[t].in_service.values).all():
             bad("in_service of %s not restored" % t)
+    # res_* tables: before = what a plain power flow leaves (ref), after = net.res_* after the real run_contingency
+    wr = []
+    for tt in ("bus", "line", "trafo"):
+        pre = [(c, list(ref["res_" + tt][c].values)) for c in ref["res_" + tt].columns]
+        post = [(c, list(net["res_" + tt][c].values)) for c in net["res_" + tt].columns]
+        for w in _write_spec(tt, pre, post, res[tt], veq=_vclose):
+            bad(w)
+        vals = []
+
+        def idt(cols):
+            out = []
+            for c, vs in cols:
+                ids = []
+                for x in vs:
+                    vals.append(_cell(c, x))
+                    ids.append("OZ %s" % cq.z(len(vals) - 1))
+                out.append("(%s, %s)" % (cq.s(c), cq.lst(ids)))
+            return cq.lst(out)
+        wr.append(("olist okv (write_table %s %s)" % (idt(pre), idt([(k_, list(v)) for k_, v in res[tt].items()])), vals,
+                   [[c, [_cell(c, x) for x in vs]] for c, vs in post], case))
     nvalid = sum(len(v) for v in per["line"].values())
     ctx.case(case, nontrivial=nvalid >= 2, sample=None)
     ctx.count("real_nets")
+    return wr
+
+
+def _vclose(key, a, b, tol=1e-6):
+    a = [_cell(key, x) for x in a]
+    b = [_cell(key, x) for x in b]
+    return len(a) == len(b) and all((x is None and y is None) or (x is not None and y is not None and (
+        x == y or (not isinstance(x, (bool, str)) and not isinstance(y, (bool, str)) and abs(x - y) <= tol * max(1, abs(x))))) for x, y in zip(a, b))
 
 
 def _raise_restore(ctx, rng):
@@ -329,14 +459,17 @@ def _raise_restore(ctx, rng):
 def run(ctx):
     rng = ctx.rng
     terms, impls, descs = [], [], []
+    wterms, wimpls = [], []
     for k in range(ctx.n(250, 3000)):
-        term, impl, desc, restored, n0_ok, nontriv, spec_bad = _stub_case(ctx, rng)
+        term, impl, desc, restored, n0_ok, nontriv, spec_bad, wr = _stub_case(ctx, rng)
         for w in spec_bad[:1]:
             ctx.violation('spec', w, desc)
         if term is not None:
             terms.append(term)
             impls.append(impl)
             descs.append(desc)
+            wterms.append(wr[0])
+            wimpls.append(wr[1])
         ctx.case(desc, nontrivial=nontriv, sample={"input": desc, "impl": _js(impl)} if k < 2 else None)
         ctx.count("stub_cases")
         ctx.count("succ_cases_%d" % min(sum(1 for r in desc["log"][:-1] if not r["raises"]), 6))
@@ -345,15 +478,36 @@ def run(ctx):
             ctx.violation("spec", "in_service flags not restored after run_contingency", desc)
         if not n0_ok:
             ctx.violation("spec", "N-0 values are not the values of the plain (last) evaluation", desc)
-    model = ctx.coq_eval("c14", "Base.QN C14.Model", terms, shard=125)
+    nw = ctx.n(110, 3000)      # the table-level model runs on the first nw stub cases (time budget of the quick tier)
+    real = []
+    for k in range(ctx.n(25, 300)):
+        real += _real_oracle(ctx, rng) or []
+    real = real[:ctx.n(18, 300)]
+    # one evaluation for all three families of terms (coqc start-up dominates the cost of a shard)
+    allterms = terms + wterms[:nw] + [r[0] for r in real]
+    allmodel = ctx.coq_eval("c14", "Base.QN C14.Model C14.Write", allterms, shard=ctx.n(200, 300))
+    model, wmodel, rmodel = allmodel[:len(terms)], allmodel[len(terms):len(terms) + len(wterms[:nw])], allmodel[len(terms) + len(wterms[:nw]):]
     for desc, impl, mod in zip(descs, impls, model):
         ctx.corr_checked += 1
         if _js(impl) != _js(mod):
             ctx.disagreement("contingency result dict differs from the Coq fold: impl=%s model=%s" % (_js(impl)[:300], _js(mod)[:300]), desc)
+    for desc, impl, mod in zip(descs, wimpls, wmodel):
+        ctx.corr_checked += 1
+        if _js(impl) != _js(mod):
+            names = ["in_service afterwards", "evaluation trace", "returned dict", "res tables after write_to_net"]
+            which = [n for n, a, b_ in zip(names, impl, mod if isinstance(mod, list) else [None] * 4) if _js(a) != _js(b_)]
+            ctx.disagreement("table-level run differs from C14.Write.run_write_out in %s: impl=%s model=%s" % (
+                which, _js(impl)[:300], _js(mod)[:300]), desc)
+    for (term, vals, post, case), mod in zip(real, rmodel):
+        ctx.corr_checked += 1
+        # the model works on cell ids (write_to_net only moves cells); translate back to the values
+        ok = isinstance(mod, list) and [c for c, _ in mod] == [c for c, _ in post] and all(
+            _vclose(None, [vals[i] for i in a[1]], b_[1]) for a, b_ in zip(mod, post))
+        if not ok:
+            ctx.disagreement("real net: res table after run_contingency differs from C14.Write.write_table(plain-runpp table, "
+                             "returned dict): impl=%s model=%s" % (_js(post)[:300], _js(mod)[:300]), case)
     for k in range(ctx.n(40, 400)):
         _raise_restore(ctx, rng)
-    for k in range(ctx.n(25, 300)):
-        _real_oracle(ctx, rng)
 
 
 def _js(x):
